@@ -53,7 +53,7 @@ class C09(Check):
             "many-thread cases (9, 12, 16, 24, 32 threads, more than the cores, piling up on the sink mutex), "
             "`same` cases (all threads on ONE logger type and severity, one-expression statements with nine streamed items, up to "
             "8000 (quick) / 20000 (thorough) records per thread), corpus; a batch of each kind also on a ThreadSanitizer build (larger in the thorough tier). "
-            "API-surface cases (the _mt sink inside sink::sequence<> alone / twice / over both streams, records with tag, severity and "
+            "API-surface cases (p6: every statement tagged, tags distinct per thread and alternating, the tag printed by the formatter and checked in every emitted record; the _mt sink inside sink::sequence<> alone / twice / over both streams, records with tag, severity and "
             "thread-id attributes behind and_filter/not_filter/severity_filter with filtered-out and empty statements in between, sink "
             "objects called directly, eight statement forms incl. callable items, logger::log()/will_log(), smart_stream::sstr(), "
             "logging from a destructor during unwinding and from a catch handler, threads created/joined during the run, a forked "
@@ -142,7 +142,7 @@ class C09(Check):
         #   h/H = payloads of 20000..70000 bytes
         for rep in range(1 if quick else 5):
             for sink in sinks:
-                for prof in ("p1", "p2", "p3", "p4", "p5"):
+                for prof in ("p1", "p2", "p3", "p4", "p5", "p6"):
                     n = rng.choice([3, 4, 6, 9])
                     yield "%s %s %s %s %d %s" % (sink, csv([rng.randint(40, 160) for _ in range(n)]), rng.choice("smSM"), rng.choice("nyd"),
                                                  rng.randint(0, 99999), prof), "api-profile"
@@ -154,7 +154,11 @@ class C09(Check):
                 yield "%s %s s d %d ord fresh" % (sink, csv([rng.randint(2, 8) for _ in range(4)]), rng.randint(0, 99999)), "api-threads"
                 yield "%s %s m n %d same fresh" % (sink, csv([300] * 8), rng.randint(0, 99999)), "api-threads"
                 yield "%s %s %s %s %d" % (sink, csv([rng.randint(3, 8) for _ in range(4)]), rng.choice("hH"), rng.choice("ny"), rng.randint(0, 99999)), "api-huge-record"
-                for prof in ("p2", "p3", "p4", "p5"):
+                # per-thread distinct tags, the tag of every emitted record checked: volume on the plain build, a batch under TSan
+                yield "%s %s s n %d p6" % (sink, csv([rng.randint(1200, 2000) for _ in range(4)]), rng.randint(0, 99999)), "api-thread-tags"
+                yield "%s %s %s %s %d p6 ord" % (sink, csv([rng.randint(2, 9) for _ in range(3)]), rng.choice("sm"), rng.choice("nyd"), rng.randint(0, 99999)), "api-thread-tags"
+                yield "%s %s s n %d p6 tsan" % (sink, csv([rng.randint(100, 300) for _ in range(rng.choice([2, 4, 8]))]), rng.randint(0, 99999)), "tsan-api"
+                for prof in ("p2", "p3", "p4", "p5", "p6"):
                     yield "%s %s %s y %d %s %s tsan" % (sink, csv([rng.randint(20, 60) for _ in range(4)]), rng.choice("sM"), rng.randint(0, 99999), prof,
                                                         rng.choice(["wave", "fresh"])), "tsan-api"
         # (iv-c) payloads containing line terminators, every length class, `same` and mixed loggers, plain and TSan build:
